@@ -136,6 +136,21 @@ MulHomomorphic(p, q) ==
 \* the generator's blinded fixed-base multiplication: (k + b)*G + (-b)*G
 BlindedGenMul(k, b) == Add(GMul(k + b), GMul(0 - b))
 BlindingCancels(b) == \A k \in KRange : BlindedGenMul(k, b) = SMul(k, G)
+\* ---- scalar multiplication is defined for EVERY integer k, whatever the bit width of N ----
+\* Mul / SMul above take any integer.  An implementation that multiplies the generator from a table of W
+\* doublings G, 2G, 4G, .. 2^(W-1)G (the shape of pycoin's Generator.raw_mul: reduce k mod N, then add the table
+\* entries selected by the low W bits) computes ((k mod N) mod 2^W) * G.  It is the group law exactly when the table
+\* covers every bit a reduced scalar can have:  2^W >= N.  A fixed W (256) is therefore wrong on every curve whose
+\* order is wider - nothing in the property restricts N to 256 bits.
+RECURSIVE TwoTo(_)
+TwoTo(e) == IF e = 0 THEN 1 ELSE 2 * TwoTo(e - 1)
+RECURSIVE TableSum(_, _, _)
+TableSum(e, i, W) == IF i = W THEN Inf
+                     ELSE Add(IF (e \div TwoTo(i)) % 2 = 1 THEN SMul(TwoTo(i), G) ELSE Inf, TableSum(e, i + 1, W))
+FixedBaseMul(k, W) == TableSum(k % N, 0, W)
+TableWidthRule(W) == (\A k \in KRange : FixedBaseMul(k, W) = Mul(k, G)) <=> (TwoTo(W) >= N)
+TableWidthRuleAll(n) == \A W \in 0..12 : TwoTo(W) < 8 * n => TableWidthRule(W)
+
 PointsForXOk(x) == LET r == PointsForX(x) IN
      /\ Cardinality(YsFor(x)) \in {0, 2}
      /\ r # <<>> => /\ r[1] \in Affine /\ r[2] \in Affine /\ r[1] # r[2]
